@@ -1,6 +1,6 @@
 (* C05 - Metropolis-Hastings acceptance rule, including zero and undefined ratios. *)
 From Coq Require Import QArith Bool.
-From LV Require Import Base.Xnum Goose.MH Goose.MHProofs.
+From LV Require Import Base.Xnum Goose.MH Goose.MHProofs Goose.MHKernel Goose.MHKernelProofs.
 Open Scope Q_scope.
 
 Theorem C05_accept_iff : forall exp_o cur prop corr u qu qp,
@@ -62,3 +62,73 @@ Theorem C05_le_refuted :
     accept (mh_decide exp_stub Le cur prop corr u) = true.
 Proof. exact le_refuted. Qed.
 Print Assumptions C05_le_refuted.
+
+(* ---- kernel level: RWKernel / MHKernel / IWLSKernel hand prop - cur + corr, unsanitised, to the accept rule ---- *)
+Theorem C05_kernel_decide_is_mh_decide : forall exp_o c k g,
+  kernel_decide exp_o Forward c k g = mh_decide exp_o c (g_cur g) (g_prop g) (kernel_corr k g) (g_u g).
+Proof. exact kernel_decide_is_mh_decide. Qed.
+Print Assumptions C05_kernel_decide_is_mh_decide.
+
+Theorem C05_kernel_error_code : forall exp_o c k g,
+  code (kernel_decide exp_o Forward c k g) = if xisnan (kernel_ratio k g) then 90%nat else 0%nat.
+Proof. exact kernel_error_code. Qed.
+Print Assumptions C05_kernel_error_code.
+
+Theorem C05_kernel_nan_is_rejection : forall exp_o, exp_ok exp_o ->
+  forall (S K : Type) k g (ks : K) (proposed input : S),
+  unit_interval (g_u g) ->
+  ingr_nan k g = true ->
+  let r := kernel_transition exp_o Forward Lt k g ks proposed input in
+  code (ko_info r) = 90%nat /\ prob (ko_info r) = XFin 0 /\ accept (ko_info r) = false
+  /\ ko_mstate r = input /\ ko_kstate r = ks.
+Proof. intros exp_o H S K. exact (@kernel_nan_is_rejection exp_o H S K). Qed.
+Print Assumptions C05_kernel_nan_is_rejection.
+
+Theorem C05_kernel_undefined_is_rejection : forall exp_o, exp_ok exp_o ->
+  forall (S K : Type) k g (ks : K) (proposed input : S),
+  unit_interval (g_u g) ->
+  xisnan (kernel_ratio k g) = true ->
+  let r := kernel_transition exp_o Forward Lt k g ks proposed input in
+  code (ko_info r) = 90%nat /\ prob (ko_info r) = XFin 0 /\ accept (ko_info r) = false
+  /\ ko_mstate r = input /\ ko_kstate r = ks.
+Proof. intros exp_o H S K. exact (@kernel_undefined_is_rejection exp_o H S K). Qed.
+Print Assumptions C05_kernel_undefined_is_rejection.
+
+Theorem C05_iwls_inf_minus_inf : forall g,
+  (g_fwd g = XPosInf /\ g_bwd g = XPosInf) \/ (g_fwd g = XNegInf /\ g_bwd g = XNegInf) ->
+  xisnan (kernel_ratio KIWLS g) = true.
+Proof. exact iwls_inf_minus_inf. Qed.
+Print Assumptions C05_iwls_inf_minus_inf.
+
+Theorem C05_kernel_accept_iff : forall exp_o s k g qu qp,
+  g_u g = XFin qu -> prob (kernel_decide exp_o s Lt k g) = XFin qp ->
+  (accept (kernel_decide exp_o s Lt k g) = true <-> qu < qp).
+Proof. exact kernel_accept_iff. Qed.
+Print Assumptions C05_kernel_accept_iff.
+
+Theorem C05_kernel_prob_range : forall exp_o, exp_ok exp_o -> forall s c k g,
+  exists q, prob (kernel_decide exp_o s c k g) = XFin q /\ 0 <= q /\ q <= 1.
+Proof. exact kernel_prob_range. Qed.
+Print Assumptions C05_kernel_prob_range.
+
+Theorem C05_kernel_state_select : forall exp_o (S K : Type) s c k g (ks : K) (proposed input : S),
+  let r := kernel_transition exp_o s c k g ks proposed input in
+  ko_kstate r = ks
+  /\ (accept (ko_info r) = false -> ko_mstate r = input)
+  /\ (accept (ko_info r) = true -> ko_mstate r = proposed).
+Proof. intros exp_o S K. exact (@kernel_state_select exp_o S K). Qed.
+Print Assumptions C05_kernel_state_select.
+
+(* a kernel that sanitises its correction (jnp.nan_to_num) before the accept rule: refuted *)
+Theorem C05_kernel_sanitised_refuted :
+  exists g, unit_interval (g_u g) /\ ingr_nan KIWLS g = true /\
+    code (kernel_decide exp_stub Sanitise Lt KIWLS g) = 0%nat /\
+    accept (kernel_decide exp_stub Sanitise Lt KIWLS g) = true.
+Proof. exact sanitised_refuted. Qed.
+Print Assumptions C05_kernel_sanitised_refuted.
+
+Example C05_kernel_nan_witness :
+  unit_interval (g_u g_witness) /\ ingr_nan KIWLS g_witness = true /\
+  kernel_transition exp_stub Forward Lt KIWLS g_witness tt 1%nat 0%nat
+  = mkKO (mkMH 90 (XFin 0) false) tt 0%nat.
+Proof. exact kernel_nan_witness. Qed.
